@@ -13,6 +13,17 @@ pub fn ref_le_byte(x: u64, i: u32) -> (r: u8)
     requires i < 8,
     ensures r == spec_le_byte(x as nat, i as nat),
 {
+    proof {
+        lemma_pow256_values();
+        if i == 0 { assert(((x >> 0u64) & 0xff) == (x / 1) % 256) by(bit_vector); }
+        else if i == 1 { assert(((x >> 8u64) & 0xff) == (x / 0x100) % 256) by(bit_vector); }
+        else if i == 2 { assert(((x >> 16u64) & 0xff) == (x / 0x1_0000) % 256) by(bit_vector); }
+        else if i == 3 { assert(((x >> 24u64) & 0xff) == (x / 0x100_0000) % 256) by(bit_vector); }
+        else if i == 4 { assert(((x >> 32u64) & 0xff) == (x / 0x1_0000_0000) % 256) by(bit_vector); }
+        else if i == 5 { assert(((x >> 40u64) & 0xff) == (x / 0x100_0000_0000) % 256) by(bit_vector); }
+        else if i == 6 { assert(((x >> 48u64) & 0xff) == (x / 0x1_0000_0000_0000) % 256) by(bit_vector); }
+        else { assert(((x >> 56u64) & 0xff) == (x / 0x100_0000_0000_0000) % 256) by(bit_vector); }
+    }
     ((x >> (8 * i)) & 0xff) as u8
 }
 
